@@ -386,6 +386,13 @@ def d_index(site, ctx):
         i = strip(idx)
         if i[0] == "place" and i[2] and i[2][0][0] == "downcast" and _find_call(i, r"binary_search_by_key$"):
             variant = i[2][0][2]
+            # `let index = v.binary_search_by_key(..).ok()?;` — the Some / Continue payload of `.ok()` is the Ok payload
+            if variant in ("Some", "Continue") and _find_call(i, r"Result::<T, E>::ok$") and not _find_call(i, r"Result::<T, E>::err$"):
+                inner = strip(i[1])
+                while inner[0] == "call" and re.search(r"(Try::branch|Result::<T, E>::ok)$", inner[1] or ""):
+                    inner = strip(inner[3][0])
+                if inner[0] == "call" and re.search(r"binary_search_by_key$", inner[1] or ""):
+                    variant = "Ok"
             if variant == "Ok":
                 return ("I-BSEARCH", "index is the Ok payload of binary_search_by_key on the same vector")
             if variant == "Err":
